@@ -580,6 +580,11 @@ func (w *twkbWriter) writePointArray(numPoints int, coords []float64) {
 }
 
 func (w *twkbWriter) writeAdditionalHeaders() {
+	if w.isEmpty {
+		// The metadata header of an empty geometry only has the "is empty"
+		// flag set, so a parser doesn't expect a size or bbox to follow it.
+		return
+	}
 	// These are written in this order so that the size of the
 	// bbox is included in the size computation.
 	if w.hasBBox {
